@@ -142,6 +142,11 @@ func c03Family(seed uint64, family string) *lib.Pair {
 		p.New.PutFile("dir/b-renamed.bin", b)              // whole-file copy
 		p.New.PutFile("dir/b.bin", edit(b, 2))             // patched and used as rename source
 		p.New.PutFile("c.bin", c)                          // untouched
+		// a file that is kept as it is AND copied whole to a new path (kept first, the copy at the very end)
+		k := lib.RandomBytes(int64(r.Range(1, 2*lib.BS)), r.Uint64())
+		p.Old.PutFile("aaa-kept.bin", k)
+		p.New.PutFile("aaa-kept.bin", k)
+		p.New.PutFile("zzz-copy-of-kept.bin", k)
 		p.New.PutFile("empty-new.bin", nil)                // empty file
 		p.New.PutFile("empty-old.bin", lib.RandomBytes(777, r.Uint64()))
 		p.New.PutFile("new/fresh.bin", lib.RandomBytes(int64(r.Range(1, 5*lib.BS)), r.Uint64()))
